@@ -18,7 +18,8 @@ import ast
 from ..astutil import (dotted, src, walk_local, local_assignments, calls, dominating_guards,
                        preceding_exit_guards, conjuncts, if_chain)
 from ..logic import formula, And, Or, Not, atom, TRUE, FALSE, counterexample
-from ..report import AnalysisError
+from ..inline import bind_args, call_sites, const_value
+from ..report import AnalysisError, Frag
 from .c18 import backend_calls
 
 # F9: methods of scipy.optimize.minimize that honour `bounds` (SciPy >= 1.11 documentation)
@@ -326,6 +327,13 @@ def _record_types(prog):
                     v = n.values[keys.index("type")]
                     if isinstance(v, ast.Constant):
                         types.add(v.value)
+                    elif isinstance(v, ast.Name):
+                        # a record factory: the type is a parameter, bound to a literal at every call site
+                        for _caller, call in call_sites(prog, fi, "optyx.solvers"):
+                            t = const_value(v, bind_args(fi.node, call))
+                            if not isinstance(t, str):
+                                raise AnalysisError(f"{fi.name}: record type `{v.id}` is not a literal at the call on line {call.lineno}")
+                            types.add(t)
     if not types:
         raise AnalysisError("no constraint records ({'type':..., 'fun':...}) found")
     return types
@@ -363,9 +371,22 @@ def _check_linprog(prog, rep, fi, call):
     res = par.targets[0].id
     sites = status_sites(fi)
     n_opt = 0
+    assigns0 = local_assignments(fi.node)
     for st, n in sites:
         pc = path_condition(n)
         key = own_test(n)
+        par_d = getattr(n, "_parent", None)
+        if isinstance(par_d, ast.Dict):
+            # status table {code: SolverStatus.X} looked up with the backend's status code
+            k = [kk for kk, vv in zip(par_d.keys, par_d.values) if vv is n]
+            names = [nm for nm, vals in assigns0.items() if any(v is par_d for v in vals)]
+            lookups = [c for c in walk_local(fi.node) if isinstance(c, ast.Call) and isinstance(c.func, ast.Attribute) and c.func.attr == "get" and isinstance(c.func.value, ast.Name) and c.func.value.id in names and c.args and src(c.args[0]) == f"{res}.status"]
+            lookups += [c for c in walk_local(fi.node) if isinstance(c, ast.Subscript) and isinstance(c.value, ast.Name) and c.value.id in names and src(c.slice) == f"{res}.status"]
+            if not (k and isinstance(k[0], ast.Constant) and lookups):
+                rep.undecided(f"{fname}: status table at line {par_d.lineno} is not looked up with {res}.status")
+                continue
+            pc = And(path_condition(lookups[0]), atom(f"{res}.status == {k[0].value}"))
+            key = f"table[{k[0].value}]"
         if st == "OPTIMAL":
             n_opt += 1
             cx = counterexample(pc, atom(f"{res}.success"))
